@@ -92,6 +92,9 @@ def run(tier, seed):
                     m = meta[e["c"]]
                     rep.finding(f"valid-encoding-{e['out']}/{m['code']}/{(m['msg'] or '')[:50]}",
                                 {"family": fam, "seed": seed + 7000, "case": e["c"], "instruction": m["text"], "bytes": m["bytes"], "pre": m["pre"], "message": m["msg"]})
+        # whole programs (Trace_Prog): a crash at any step of a program - also after stray returns, at unfetchable addresses - is C19's
+        import progcommon as pc
+        pc.phase(rep, tier, seed + 8900, wd, lambda c, cls, m: c == "out-crash", quick_n=300, thorough_n=6000)
         rep.cov["valid_encoding_cases"] = nvalid
         outs = {}
         for e in evs:
